@@ -790,6 +790,58 @@ func c19Block(entries ...*CachedEntry) []byte {
 	return append(l, b...)
 }
 
+// c19AlignedDump builds an intact three-block dump whose second block header
+// starts exactly at uncompressed offset target (the first block is one entry
+// padded with TXT data to the needed size).
+func c19AlignedDump(target int) ([]byte, bool) {
+	mk := func(i int, pad int) *CachedEntry {
+		q := new(dns.Msg)
+		q.SetQuestion(c19Name(i), dns.TypeTXT)
+		m := new(dns.Msg)
+		m.SetReply(q)
+		var txt []string
+		for pad > 0 {
+			n := pad
+			if n > 200 {
+				n = 200
+			}
+			txt = append(txt, strings.Repeat("p", n))
+			pad -= n
+		}
+		if len(txt) == 0 {
+			txt = []string{""}
+		}
+		m.Answer = append(m.Answer, &dns.TXT{Hdr: dns.RR_Header{Name: c19Name(i), Rrtype: dns.TypeTXT, Class: dns.ClassINET, Ttl: 300}, Txt: txt})
+		b, err := m.Pack()
+		if err != nil {
+			return nil
+		}
+		now := vs.Epoch.Add(c19DumpAt).Unix()
+		return &CachedEntry{Key: []byte(verifMsgKey(q)), CacheExpirationTime: now + 300, MsgExpirationTime: now + 300, MsgStoredTime: now, Msg: b}
+	}
+	for pad := target - 900; pad < target; pad++ {
+		if pad < 0 {
+			continue
+		}
+		var first []*CachedEntry
+		if pad > 30000 {
+			first = []*CachedEntry{mk(900, 30000), mk(899, pad-30000)}
+		} else {
+			first = []*CachedEntry{mk(900, pad)}
+		}
+		if first[0] == nil || first[len(first)-1] == nil {
+			continue
+		}
+		b0 := c19Block(first...)
+		if len(b0) != target {
+			continue
+		}
+		raw := append(append(append([]byte{}, b0...), c19Block(mk(901, 10), mk(902, 20))...), c19Block(mk(903, 5))...)
+		return c19Gz(dumpHeader, stdgzip.DefaultCompression, func(w io.Writer) { w.Write(raw) }), true
+	}
+	return nil, false
+}
+
 type c19Adv struct {
 	Name string
 	Data func() []byte
@@ -1519,6 +1571,45 @@ func TestVerifC19(t *testing.T) {
 		res.Sample(map[string]any{"scenario": "adv", "name": a.Name, "bytes": len(data), "outcome": o})
 	}
 	res.Bounds["adversarial"] = names
+
+	// ---- intact dumps whose block headers straddle the 32 KiB window of the inflater
+	// (gzip.Reader.Read returns short there): every alignment of the second and third
+	// block header relative to the boundary; the load must succeed and reproduce the dump.
+	alignedCases := 0
+	for m := 1; m <= 2; m++ {
+		for k := -1; k <= 9; k++ {
+			alignedCases++
+			if !e.Mine(int64(alignedCases)) || expired() {
+				continue
+			}
+			data, ok := c19AlignedDump(32768*m - k)
+			if !ok {
+				res.Notes = append(res.Notes, fmt.Sprintf("aligned: could not build a dump whose second block header starts at %d", 32768*m-k))
+				continue
+			}
+			intact, _, _, derr := c19Decode(data)
+			ld := c19LoadAt(c19DumpAt, 0, data)
+			res.Evaluations++
+			res.Transitions++
+			cls := fmt.Sprintf("aligned/header-at-boundary%+d", -k)
+			in := c19FileIn{Scenario: "aligned", Name: fmt.Sprintf("m%d-k%d", m, k), AtNs: int64(c19DumpAt), File: c19B64(data)}
+			switch {
+			case derr != nil:
+				res.Infra = "aligned: reference decoder failed on a generated dump: " + derr.Error()
+			case ld.Panic != "":
+				viol("aligned/panic", "loading an intact dump panicked: "+ld.Panic, in)
+			case ld.Status != 200:
+				res.Outcome(cls + "/REFUSED")
+				viol("aligned/intact-dump-refused", fmt.Sprintf("an intact dump (second block header at uncompressed offset %d) was refused: %d %s", 32768*m-k, ld.Status, ld.Body), in)
+			case len(ld.Entries) != len(intact):
+				res.Outcome(cls + "/ENTRIES-LOST")
+				viol("aligned/entries-lost", fmt.Sprintf("intact dump with %d entries, %d loaded", len(intact), len(ld.Entries)), in)
+			default:
+				res.Outcome(cls + "/ok")
+			}
+		}
+	}
+	res.Bounds["aligned"] = "second block header starting at 32768*m-k, m in 1..2, k in -1..9"
 
 	fmt.Printf("phase adv done at %.1fs\n", time.Since(start).Seconds())
 	// ---- periodic dump to a file and its crash points
